@@ -605,4 +605,37 @@ theorem replaceRange_delete_applies (S : Schema) (hS : S ∈ familySchemas) (doc
     (family_reopenOK _ hS) (family_inlineUniform _ hS) doc f t sl hsz cs hv hdoc hn hattrs hhc hft ht hpf hpt h
     c hc st hst
 
+/-- `PM.C11.trivialFit_replace_applies` with its schema guards discharged for the bundled schema family -/
+theorem trivialFit_replace_applies (S : Schema) (hS : S ∈ familySchemas) (doc : Node) (f t : Nat) (sl : Slice)
+    (hv : C01.Valid S doc) (hdoc : C01.IsElem doc) (hn : fnorm doc.kids = true) (hsn : fnorm sl.content = true)
+    (hft : f ≤ t) (hpf : pairAligned doc f = true) (hpt : pairAligned doc t = true)
+    (htr : fitsTriviallyO S doc f t sl = some true) :
+    ∃ doc', S.apply (.replace f t sl false) doc = .ok doc' :=
+  PM.C11.trivialFit_replace_applies S (family_textStableC _ hS) (family_textAbsorb _ hS) doc f t sl hv hdoc hn
+    hsn hft hpf hpt htr
+
+/-- `PM.C11.replace_never_raises_flat` with its schema guards discharged for the bundled schema family -/
+theorem replace_never_raises_flat (S : Schema) (hS : S ∈ familySchemas) (doc : Node) (f t : Nat) (sl : Slice)
+    (hv : C01.Valid S doc) (hdoc : C01.IsElem doc) (hn : fnorm doc.kids = true) (hsn : fnorm sl.content = true)
+    (hft : f ≤ t) (hpf : pairAligned doc f = true) (hpt : pairAligned doc t = true)
+    (hne : ¬ (f = t ∧ sl.size = 0)) (htr : fitsTriviallyO S doc f t sl = some true) :
+    ∃ doc', replaceStep S doc f t sl = .ok (some (.replace f t sl false)) ∧
+    S.apply (.replace f t sl false) doc = .ok doc' :=
+  PM.C11.replace_never_raises_flat S (family_textStableC _ hS) (family_textAbsorb _ hS) doc f t sl hv hdoc hn
+    hsn hft hpf hpt hne htr
+
+/-- `PM.C11.insertInline_never_raises_flat` with its schema guards discharged for the bundled schema family -/
+theorem insertInline_never_raises_flat (S : Schema) (hS : S ∈ familySchemas) (doc : Node) (f t : Nat)
+    (sl : Slice) (hsl : sl.inlineLeaves S = true) (hslv : sl.closedValid S = true)
+    (hsn : fnorm sl.content = true) (hv : C01.Valid S doc) (hdoc : C01.IsElem doc) (hn : fnorm doc.kids = true)
+    (hattrs : S.nodeAttrsOK doc = true) (hft : f ≤ t) (hpf : pairAligned doc f = true)
+    (hpt : pairAligned doc t = true) (hne : ¬ (f = t ∧ sl.size = 0))
+    (htr : fitsTriviallyO S doc f t sl = some true) :
+    ∃ doc', replaceStep S doc f t sl = .ok (some (.replace f t sl false)) ∧
+    S.apply (.replace f t sl false) doc = .ok doc' ∧ C01.Valid S doc' ∧
+    Kept (ftoks doc.kids) (ftoks doc'.kids) f t (textUnits (sliceToks' sl)) :=
+  PM.C11.insertInline_never_raises_flat S (family_det _ hS) (family_fillersOK _ hS) (family_wrapOK _ hS)
+    (family_labelsOK _ hS) (family_leafOk _ hS) (family_textStableC _ hS) (family_closable _ hS)
+    (family_textAbsorb _ hS) doc f t sl hsl hslv hsn hv hdoc hn hattrs hft hpf hpt hne htr
+
 end PM.Family.C11
